@@ -99,30 +99,75 @@ def check_contract_premises(prog: Program, res: Result) -> None:
     R = "C04-leaf"
     fi = prog.func(f"{RS}:apply_sizematcher")
     res.touch(fi)
-    branches = [n for n in walk_function(fi.node) if isinstance(n, ast.If) and isinstance(n.test, ast.Compare) and "hratio" in norm(n.test) and "wratio" in norm(n.test)]
-    res.ob(R, len(branches) == 1, fi.qualname, "one aspect-ratio decision", f"{len(branches)} ratio branches", fi.where)
-    for br in branches:
-        for body, name in ((br.body, "then"), (br.orelse, "else")):
-            d = {norm(s.targets[0]): s.value for s in body if isinstance(s, ast.Assign)}
-            r = norm(d.get("eff_scale_ratio")) if "eff_scale_ratio" in d else None
-            ok = r in ("wratio", "hratio") and all(k in d and r in astq.names_in(d[k]) and not ({"wratio", "hratio"} - {r}) & astq.names_in(d[k]) for k in ("target_h", "target_w"))
-            ok = ok and "img_height" in norm(d.get("target_h", ast.Constant(0))) and "img_width" in norm(d.get("target_w", ast.Constant(0)))
-            res.ob(R, ok, fi.qualname, f"{name}-branch: both sides resized by the returned ratio ({r})",
-                   f"in the {name}-branch the target size is not img_height*{r} x img_width*{r} with the returned eff_scale_ratio={r}: keypoints scaled by eff_scale no longer match the image",
-                   f"{fi.module.relpath}:{br.lineno}")
-        # the smaller ratio is chosen (content fits)
-        t = br.test
-        ok = isinstance(t.ops[0], ast.Gt) and norm(t.left) == "hratio" and norm(t.comparators[0]) == "wratio" and norm({norm(s.targets[0]): s.value for s in br.body if isinstance(s, ast.Assign)}.get("eff_scale_ratio")) == "wratio"
-        res.ob(R, ok, fi.qualname, "the smaller ratio is used (image fits inside max height/width)", "the larger of the two ratios is used: the resized image exceeds the target", f"{fi.module.relpath}:{br.lineno}")
-    d = {norm(s.targets[0]): norm(s.value) for s in walk_function(fi.node) if isinstance(s, ast.Assign) and isinstance(s.targets[0], ast.Name)}
-    ok = d.get("hratio") == "max_height / img_height" and d.get("wratio") == "max_width / img_width" and d.get("pad_height") == "max_height - target_h" and d.get("pad_width") == "max_width - target_w"
-    res.ob(R, ok, fi.qualname, "ratios = max/actual, pads = max - target", f"ratios/pads are {[d.get(k) for k in ('hratio', 'wratio', 'pad_height', 'pad_width')]}", fi.where)
-    rz = [c for c in walk_function(fi.node) if isinstance(c, ast.Call) and norm(c.func) == "tvf.resize"]
-    ok = len(rz) == 1 and norm(astq.call_arg(rz[0], 1, "size")) == "(target_h, target_w)"
-    res.ob(R, ok, fi.qualname, "resize to (target_h, target_w)", "the image is not resized to (target_h, target_w)", fi.where)
-    rets = [n for n in walk_function(fi.node) if isinstance(n, ast.Return)]
-    got = sorted(norm(r.value) for r in rets)
-    res.ob(R, got == ["(image, 1.0)", "(image, eff_scale_ratio)"], fi.qualname, "returns (image, ratio) / (image, 1.0) when nothing changes", f"returns {got}", fi.where)
+    # Symbolic reading of apply_sizematcher, independent of how it is spelled: expand named intermediates, turn if/else
+    # joins into conditional expressions, and look at every consistent resolution (case) of the conditions.
+    fn = fi.node
+    rz = [c for c in walk_function(fn) if isinstance(c, ast.Call) and norm(c.func).split(".")[-1] == "resize"]
+    res.ob(R, len(rz) == 1, fi.qualname, "one resize call", f"{len(rz)} resize calls", fi.where)
+    rets = [n for n in walk_function(fn) if isinstance(n, ast.Return) and isinstance(n.value, ast.Tuple) and len(n.value.elts) == 2]
+    ident = [r for r in rets if astq.const_value(r.value.elts[1]) == 1.0]
+    scaled = [r for r in rets if r not in ident]
+    res.ob(R, len(ident) == 1 and len(scaled) == 1, fi.qualname, "returns (image, ratio), and (image, 1.0) when nothing changes",
+           f"returns {sorted(norm(r.value) for r in rets)}", fi.where)
+    pads = [c for c in walk_function(fn) if isinstance(c, ast.Call) and norm(c.func).split(".")[-1] == "pad"]
+    H, W = "max_height / img_height", "max_width / img_width"
+    if len(rz) == 1 and len(scaled) == 1:
+        size = astq.call_arg(rz[0], 1, "size")
+        size = astq.expand_phi(fn, size)
+        ratio = astq.expand_phi(fn, scaled[0].value.elts[1])
+        pad = astq.expand_phi(fn, astq.call_arg(pads[0], 1, "pad")) if len(pads) == 1 else None
+        ok_shape = isinstance(size, (ast.Tuple, ast.List)) and len(size.elts) == 2
+        res.ob(R, ok_shape, fi.qualname, "resize to a (height, width) pair", f"the resize size is `{short(size, 60) if size is not None else '?'}`", fi.where)
+        if ok_shape:
+            combo = ast.Tuple(elts=[size.elts[0], size.elts[1], ratio] + (list(pad.elts) if isinstance(pad, ast.Tuple) and len(pad.elts) == 4 else []), ctx=ast.Load())
+            cs = astq.cases(combo)
+            res.ob(R, 1 <= len(cs) <= 4, fi.qualname, "aspect-ratio decision resolved", f"{len(cs)} cases", fi.where)
+            seen_r = set()
+            for choice, c in cs:
+                th, tw, r = c.elts[0], c.elts[1], c.elts[2]
+                rt = norm(r)
+                if isinstance(r, ast.Call) and norm(r.func) == "min" and {norm(a) for a in r.args} == {H, W}:
+                    smaller_ok, rt_ok = True, True
+                else:
+                    rt_ok = rt in (H, W)
+                    smaller_ok = None
+                seen_r.add(rt)
+                where = f"{fi.module.relpath}:{rz[0].lineno}"
+
+                def _side(e, dim):
+                    # int(round(dim * r))
+                    if isinstance(e, ast.Call) and norm(e.func) == "int" and e.args and isinstance(e.args[0], ast.Call) and norm(e.args[0].func) == "round" and e.args[0].args:
+                        return astq.same_product(e.args[0].args[0], dim, rt)
+                    return False
+
+                res.ob(R, rt_ok and _side(th, "img_height") and _side(tw, "img_width"), fi.qualname,
+                       f"case {sorted(k for k, v in choice.items() if v) or 'else'}: both sides resized by the returned ratio",
+                       f"when {choice or 'always'}: the image is resized to ({short(th, 50)}, {short(tw, 50)}) but the returned eff_scale is `{short(r, 40)}`: keypoints scaled "
+                       "by eff_scale no longer match the image", where)
+                # the smaller ratio is chosen: under `A > B` the value is B, otherwise A (also <, >=, <= and swapped operands)
+                if smaller_ok is None and len(choice) == 1:
+                    (t, val), = choice.items()
+                    try:
+                        te = astq.expand_phi(fn, ast.parse(t, mode="eval").body)
+                    except SyntaxError:
+                        te = None
+                    smaller_ok = False
+                    if isinstance(te, ast.Compare) and len(te.ops) == 1 and {norm(te.left), norm(te.comparators[0])} == {H, W}:
+                        a, b = norm(te.left), norm(te.comparators[0])
+                        if isinstance(te.ops[0], (ast.Gt, ast.GtE)):
+                            small_if_true, small_if_false = b, a
+                        elif isinstance(te.ops[0], (ast.Lt, ast.LtE)):
+                            small_if_true, small_if_false = a, b
+                        else:
+                            small_if_true = small_if_false = None
+                        smaller_ok = rt == (small_if_true if val else small_if_false)
+                res.ob(R, bool(smaller_ok), fi.qualname, "the smaller ratio is used (image fits inside max height/width)",
+                       f"when {choice}: the ratio `{rt}` is not the smaller of the two: the resized image exceeds the target and is cropped by the padding step", where)
+                if len(c.elts) == 7:
+                    l, rgt, tp, bt = c.elts[3:]
+                    okp = astq.const_value(l) == 0 and astq.const_value(tp) == 0 and norm(rgt) == f"max_width - {norm(tw)}" and norm(bt) == f"max_height - {norm(th)}"
+                    res.ob(R, okp, fi.qualname, "padding fills max - target at the right/bottom", f"the padding is ({short(l,10)}, {short(rgt,40)}, {short(tp,10)}, {short(bt,40)})", where)
+            res.ob(R, seen_r <= {H, W, f"min({H}, {W})", f"min({W}, {H})"} and len(seen_r) >= 1, fi.qualname, "ratios = max/actual", f"ratios are {sorted(seen_r)}", fi.where)
     ri = prog.func(f"{RS}:resize_image")
     res.touch(ri)
     ns = [s for s in walk_function(ri.node) if isinstance(s, ast.Assign) and norm(s.targets[0]) == "new_size"]
@@ -184,14 +229,14 @@ def check_size(prog: Program, res: Result) -> None:
             n += 1
             res.touch(fi)
             h, w = (mk[0].args + [None, None, None])[1:3]
-            sz = astq.deref(fi.node, size)
-            def same(a, b):
-                return a is not None and b is not None and norm(a) == norm(b)
             ok = False
-            if isinstance(sz, (ast.Tuple, ast.List)) and len(sz.elts) == 2:
-                ok = same(sz.elts[0], h) and same(sz.elts[1], w)
-            if not ok and sz is not None and h is not None and w is not None:
-                ok = any(norm(h) == f"{norm(z)}[0]" and norm(w) == f"{norm(z)}[1]" for z in (sz, size) if z is not None)
+            if h is not None and w is not None and size is not None:
+                hx, wx = astq.xnorm(fi.node, h), astq.xnorm(fi.node, w)
+                sz = astq.expand(fi.node, size)
+                if isinstance(sz, (ast.Tuple, ast.List)) and len(sz.elts) == 2:
+                    ok = norm(sz.elts[0]) == hx and norm(sz.elts[1]) == wx
+                if not ok:
+                    ok = any(hx == f"{z}[0]" and wx == f"{z}[1]" for z in (norm(sz), norm(size)))
             res.ob(R, ok, fi.qualname, f"crop size {short(size, 30) if size is not None else '?'} == box size ({short(h, 20) if h is not None else '?'}, {short(w, 20) if w is not None else '?'})",
                    f"the crop is resampled to `{short(size, 30) if size is not None else '?'}` but its box was built {short(h, 20) if h is not None else '?'} x {short(w, 20) if w is not None else '?'}: "
                    "the crop is rescaled and the keypoints (shifted by the box corner only) no longer match", f"{fi.module.relpath}:{c.lineno}")
@@ -321,6 +366,12 @@ VARIANTS = [
     Variant("streaming-recrop-uses-instance-origin", SDF, "        center_instance = ex[\"instance\"] - point", "        center_instance = ex[\"instance\"] - ex[\"instance_bbox\"][0][2]", "C04-corner"),
     Variant("resizer-image-only", RSF, "        image = resize_image(image, scale)\n        instances = instances * scale\n    return image, instances", "        image = resize_image(image, scale)\n    return image, instances", "C04-reg"),
     Variant("resize-aspect", RSF, "    new_size = [int(img_height * scale), int(img_width * scale)]", "    new_size = [int(img_height * scale), int(img_width)]", "C04-"),
+    Variant("bp-sizematcher-ifexp", RSF, "        if hratio > wratio:\n            eff_scale_ratio = wratio\n            target_h = int(round(img_height * wratio))\n            target_w = int(round(img_width * wratio))\n        else:\n            eff_scale_ratio = hratio\n            target_w = int(round(img_width * hratio))\n            target_h = int(round(img_height * hratio))\n",
+            "        eff_scale_ratio = wratio if hratio > wratio else hratio\n        target_h = int(round(img_height * eff_scale_ratio))\n        target_w = int(round(img_width * eff_scale_ratio))\n", None),
+    Variant("bp-sizematcher-min", RSF, "        if hratio > wratio:\n            eff_scale_ratio = wratio\n            target_h = int(round(img_height * wratio))\n            target_w = int(round(img_width * wratio))\n        else:\n            eff_scale_ratio = hratio\n            target_w = int(round(img_width * hratio))\n            target_h = int(round(img_height * hratio))\n",
+            "        eff_scale_ratio = min(hratio, wratio)\n        target_h = int(round(img_height * eff_scale_ratio))\n        target_w = int(round(img_width * eff_scale_ratio))\n", None),
+    Variant("sizematcher-larger-ratio", RSF, "        if hratio > wratio:\n            eff_scale_ratio = wratio", "        if hratio < wratio:\n            eff_scale_ratio = wratio", "C04-leaf"),
+    Variant("sizematcher-width-by-other-ratio", RSF, "            eff_scale_ratio = hratio\n            target_w = int(round(img_width * hratio))", "            eff_scale_ratio = hratio\n            target_w = int(round(img_width * wratio))", "C04-leaf"),
     Variant("sizematcher-wrong-ratio", RSF, "            eff_scale_ratio = wratio\n            target_h = int(round(img_height * wratio))", "            eff_scale_ratio = hratio\n            target_h = int(round(img_height * wratio))", "C04-leaf"),
     Variant("pad-top-left", RSF, "        image = F.pad(\n            image,\n            (0, pad_width, 0, pad_height),\n            mode=\"constant\",\n        ).to(torch.float32)\n\n        return image, eff_scale_ratio", "        image = F.pad(\n            image,\n            (pad_width, 0, pad_height, 0),\n            mode=\"constant\",\n        ).to(torch.float32)\n\n        return image, eff_scale_ratio", "C04-pad"),
     Variant("crop-size-mismatch", ICF, "    instance_image = crop_and_resize(\n        image,\n        boxes=instance_bbox,\n        size=box_size,\n    )\n\n    # Access top left point (x,y) of bounding box and subtract this offset from\n    # position of nodes.\n    point = instance_bbox[0][0]\n    center_instance = (instance - point).unsqueeze(0)",
